@@ -102,9 +102,9 @@ CASES += [
 RDMF = "quantarhei/qm/propagators/rdmpropagator.py"
 CASES += [
     {"name": "cut-off located on the propagation axis (the repaired defect)", "kind": "mutant", "rule": "C07-I", "edits": [
-        (RDMF, "            sbi.TimeAxis.nearest(self.RelaxationTensor.cutoff_time)", "            self.TimeAxis.nearest(self.RelaxationTensor.cutoff_time)", 3)]},
+        (RDMF, "            sbi.TimeAxis.nearest(self.RelaxationTensor.cutoff_time)", "            self.TimeAxis.nearest(self.RelaxationTensor.cutoff_time)", 4)]},
     {"name": "rounded step ratio never compared with the ratio (the repaired defect)", "kind": "mutant", "rule": "C07-I", "edits": [
-        (RDMF, "        if (Nref_max < 1) or \\\n           (abs(Nref_max*sysstep - self.TimeAxis.step) > 1.0e-6*sysstep):\n            raise Exception(\"The time step of the propagation (\"\n                            +str(self.TimeAxis.step)+\" fs) has to be a whole\"\n                            +\" multiple of the time step of the relaxation\"\n                            +\" tensor (\"+str(sysstep)+\" fs)\")\n", "", 3)]},
+        (RDMF, "        if (Nref_max < 1) or \\\n           (abs(Nref_max*sysstep - self.TimeAxis.step) > 1.0e-6*sysstep):\n            raise Exception(\"The time step of the propagation (\"\n                            +str(self.TimeAxis.step)+\" fs) has to be a whole\"\n                            +\" multiple of the time step of the relaxation\"\n                            +\" tensor (\"+str(sysstep)+\" fs)\")\n", "", 4)]},
 ]
 
 CASES += [
